@@ -5,6 +5,7 @@ import (
 	"go/ast"
 	"go/token"
 	"go/types"
+	"sort"
 	"strings"
 
 	"golang.org/x/tools/go/cfg"
@@ -41,6 +42,8 @@ type bracket struct {
 	flagPos map[*ast.DeferStmt]bool // true: closes when flag is true
 	closeSummary map[*FuncInfo]string
 	freeCloses []string
+	acquires   map[*FuncInfo]bool // functions that (transitively) acquire the drive
+	heldAcquires []string
 }
 
 // kindOfCall classifies a call as acquire/close of the drive.
@@ -162,7 +165,17 @@ func (b *bracket) node(n ast.Node, s State) State {
 		}
 	}
 	for _, call := range callsIn(n) {
-		switch b.kindOfCall(call) {
+		kind := b.kindOfCall(call)
+		if s&(bW|bR) != 0 {
+			acq := kind == "getW" || kind == "getR"
+			if cs := b.cs[call]; cs != nil && cs.Target != nil && b.acquires[cs.Target] && !strings.HasPrefix(kind, "close") && !strings.HasPrefix(kind, "maybe-close") {
+				acq = true
+			}
+			if acq {
+				b.heldAcquires = append(b.heldAcquires, "the drive is acquired again ("+exprString(call.Fun)+" at "+b.c.pos(call.Pos())+") while this call still holds it")
+			}
+		}
+		switch kind {
 		case "getW":
 			s = (s | bW) &^ bFreeW
 		case "getR":
@@ -240,18 +253,22 @@ func ruleC10DriveBracket(c *Ctx) {
 	if s.getWriter == nil || s.getReader == nil || s.closeWriter == nil || s.closeReader == nil {
 		return
 	}
+	acquires := c.reachClosure(func(cs *CallSite) bool {
+		v, ok := cs.Callee.(*types.Var)
+		return ok && (v == s.getWriter || v == s.getReader)
+	})
 	nfuncs := 0
 	for _, f := range c.Funcs {
 		if f.Lit != nil {
 			continue // closures are summarised at their call sites
 		}
-		acquires := false
+		acquiresHere := false
 		for _, cs := range f.calls {
 			if v, ok := cs.Callee.(*types.Var); ok && (v == s.getWriter || v == s.getReader) {
-				acquires = true
+				acquiresHere = true
 			}
 		}
-		if !acquires {
+		if !acquiresHere {
 			continue
 		}
 		nfuncs++
@@ -265,9 +282,11 @@ func ruleC10DriveBracket(c *Ctx) {
 			}
 		}
 		b.findFlagIdiom()
+		b.acquires = acquires
 		an := &Analysis{Must: false, Entry: bFreeW | bFreeR, Node: b.node, Edge: b.edge}
 		b.fl.solve(an)
 		b.freeCloses = nil // messages are collected during the final pass below only
+		b.heldAcquires = nil
 		seenFree := map[string]bool{}
 		b.fl.exits(an, func(ret *ast.ReturnStmt, ord int, st State) {
 			pos := f.Body().Rbrace
@@ -292,6 +311,23 @@ func ruleC10DriveBracket(c *Ctx) {
 				c.ok(rule, f, construct, pos, true, "drive free at this exit on every path")
 			}
 		})
+		// acquire-while-held findings (self-deadlock: the drive mutex is not reentrant)
+		{
+			seen := map[string]bool{}
+			for _, m := range b.heldAcquires {
+				seen[m] = true
+			}
+			if len(seen) > 0 {
+				var ms []string
+				for m := range seen {
+					ms = append(ms, m)
+				}
+				sort.Strings(ms)
+				c.bad(rule, f, "acquire-while-held", f.Decl.Pos(), "%s: the physical drive mutex is not reentrant, so the call blocks on itself and every later call hangs", strings.Join(ms, "; "))
+			} else {
+				c.ok(rule, f, "acquire-while-held", f.Decl.Pos(), true, "the drive is never acquired while already held by the same call")
+			}
+		}
 		// close-in-free findings (one obligation per function)
 		for _, m := range b.freeCloses {
 			seenFree[m] = true
